@@ -81,3 +81,7 @@ SWEEP_NOTE = (" The 'sweep' variant is a complete single-fault enumeration: a sm
 for _p in ("C09", "C05", "C20"):
     CAMPAIGNS[_p]["variants"].append(V("full", 40 if _p == "C09" else 12, 60, 3000, 1500, name="sweep", variant="sweep"))
     CAMPAIGNS[_p]["rule"] += SWEEP_NOTE
+
+CAMPAIGNS["C04"]["variants"].append(V("full", 800, 60, 30000, 1200, name="cron-e2e", variant="full"))
+CAMPAIGNS["C04"]["rule"] += (" The 'cron-e2e' variant runs the same oracle inside the complete controller manager: the real job-config controller persists "
+                              "status.lastScheduled from the Jobs that were actually created, the process is crashed and restarted with downtimes around the threshold.")
